@@ -16,7 +16,7 @@ Sources (comdex, Go):
 
 `sdk.Int` is `Int`.  A denomination is identified with its asset id (the harness gives every asset its own denom).
 A returned error and a Go panic are both `none` (the whole message is rolled back by the cache context; nothing of a
-failed message is observable).  What is NOT modelled: ESM / kill-switch guards (never enabled here; property C14),
+failed message is observable).  What is NOT modelled:
 gas, events, block-height / block-time bookkeeping fields, the user→locker index (derived from the locker list: the
 index entry is written at create and zeroed at close, exactly when the locker record exists), the reward tracker's
 fractional part and `math.Pow` (the paid reward is an external input `Rw`), the four per-category counters of
@@ -106,6 +106,13 @@ structure CL where
   debtLot    : Int := 0
   deriving DecidableEq, Repr
 
+/-- `AppAssetIdToAuctionLookupTable` (key = (app, asset)): which kind of auction the collector entry feeds, and whether one runs. -/
+structure AMap where
+  surplus : Bool := false
+  debt    : Bool := false
+  active  : Bool := false
+  deriving DecidableEq, Repr
+
 structure State where
   bank    : Bank := []
   lockers : Store Nat Locker := []
@@ -118,6 +125,10 @@ structure State where
   ltime   : Store Nat (Int × Int) := []     -- Locker.BlockHeight, Locker.BlockTime (unix seconds)
   trackers : Store (Nat × Nat) Dec := []    -- LockerRewardsTracker.RewardsAccumulated, key (locker id, app)
   rewardWl : List (Nat × Nat) := []         -- (app, asset) whitelisted for internal rewards (`GetReward` found)
+  esmOn   : List Nat := []                  -- apps whose ESM status is `true` (emergency shutdown executed)
+  killOn  : List Nat := []                  -- apps whose kill switch (`BreakerEnable`) is on
+  amap    : Store (Nat × Nat) AMap := []    -- auction mapping of the collector
+  englishOn : List Nat := []                -- apps with `LiquidationWhiteListing.IsEnglishActivated`
   deriving Repr, DecidableEq
 
 def bal (s : State) (a : Acct) (d : Nat) : Int := s.bank.bal a d
@@ -213,6 +224,79 @@ def lockerGuards (s : State) (u app asset id : Nat) : Option Locker :=
       else if (Store.get s.lookup (app, asset)).isNone then none
       else some l
 
+/-! ## configuration changes and the auction start decision -/
+
+inductive Cfg where
+  | amap (app asset : Nat) (m : AMap)     -- SetAuctionMappingForApp / WasmSetAuctionMappingForApp (governance)
+  | esm (app : Nat) (on : Bool)           -- ESM executed for the app
+  | kill (app : Nat) (on : Bool)          -- kill switch
+  | english (app : Nat) (on : Bool)       -- liquidation whitelisting: English auctions activated
+  deriving Repr
+
+def setMem (l : List Nat) (a : Nat) (on : Bool) : List Nat :=
+  if on then (if a ∈ l then l else l ++ [a]) else l.filter (· ≠ a)
+
+def applyCfg (s : State) : Cfg → State
+  | .amap app asset m => { s with amap := Store.put s.amap (app, asset) m }
+  | .esm app on => { s with esmOn := setMem s.esmOn app on }
+  | .kill app on => { s with killOn := setMem s.killOn app on }
+  | .english app on => { s with englishOn := setMem s.englishOn app on }
+
+def setActive (s : State) (k : Nat × Nat) (m : AMap) : State :=
+  { s with amap := Store.put s.amap k { m with active := true } }
+
+/-- end of `CloseEnglishAuction` (auctions.go:398-406, 429-437): the mapping entry must exist, its active flag is cleared. -/
+def clearActive (s : State) (k : Nat × Nat) : Option State :=
+  match Store.get s.amap k with
+  | none => none
+  | some m => some { s with amap := Store.put s.amap k { m with active := false } }
+
+/-- The start decision of one begin-block for one auction-mapping entry `k = (app, asset)`; the Boolean says that the sweep is
+aborted (second generation only: `LiquidateForSurplusAndDebt` returns the first error and the begin-blocker, which is NOT wrapped
+in a cache context, keeps what was written so far).
+
+first generation (`gen2 = false`; x/auction `SurplusActivator` / `DebtActivator`, surplus.go:15-78, debt.go:15-70, each inside
+`ApplyFuncIfNoError`): not active, kill switch off, ESM off; surplus: `netFees ≥ surplusThreshold + lotSize` ⇒
+`GetAmountFromCollector(lot)` then active; debt: `netFees ≤ debtThreshold − lotSize` ⇒ active (nothing leaves the collector).
+second generation (`gen2 = true`; liquidationsV2 `CheckStatsForSurplusAndDebt`, liquidate.go:468-524): not active, kill switch
+off (ESM is NOT consulted); same two comparisons; the locked vault can only be created when English auctions are activated for
+the app — otherwise the error surfaces AFTER `GetAmountFromCollector` already moved the lot.
+Assumed: the surplus and debt flags are mutually exclusive (enforced by `SetAuctionMappingForApp`), both assets of the collector
+entry exist, first-generation auction parameters exist for the app. -/
+def activateOne (s : State) (gen2 : Bool) (k : Nat × Nat) : State × Bool :=
+  match Store.get s.amap k with
+  | none => (s, false)
+  | some m =>
+    if m.active || decide (k.1 ∈ s.killOn) || (!gen2 && decide (k.1 ∈ s.esmOn)) then (s, false)
+    else match Store.get s.collk k, Store.get s.fees k with
+      | some c, some v =>
+        if gen2 then
+          if v ≤ c.debtThr - c.lot ∧ m.debt = true then
+            if k.1 ∈ s.englishOn then (setActive s k m, false) else (s, true)
+          else if v ≥ c.surplusThr + c.lot ∧ m.surplus = true then
+            match getAmount s k c.lot with
+            | none => (s, true)
+            | some s1 => if k.1 ∈ s.englishOn then (setActive s1 k m, false) else (s1, true)
+          else (s, false)
+        else
+          if m.surplus then
+            if v ≥ c.surplusThr + c.lot then
+              match getAmount s k c.lot with
+              | none => (s, false)                 -- the activator's unit is rolled back
+              | some s1 => (setActive s1 k m, false)
+            else (s, false)
+          else if m.debt then
+            if v ≤ c.debtThr - c.lot then (setActive s k m, false) else (s, false)
+          else (s, false)
+      | _, _ => (s, false)
+
+/-- one begin-block sweep over the mapping entries `keys` (store order) -/
+def activate (s : State) (gen2 : Bool) : List (Nat × Nat) → State
+  | [] => s
+  | k :: ks =>
+    let r := activateOne s gen2 k
+    if r.2 then r.1 else activate r.1 gen2 ks
+
 /-! ## operations -/
 
 inductive Op where
@@ -233,6 +317,8 @@ inductive Op where
   | surplusFund (app asset u : Nat) (x : Int)             -- WasmMsgGetSurplusFund
   | v2SurplusClose (app asset u : Nat) (lot : Int)        -- CloseEnglishAuction, surplus branch
   | v2DebtClose (app asset : Nat) (c d : Int)             -- CloseEnglishAuction, debt branch: receives d, records c
+  | config (c : Cfg)                                      -- governance / emergency configuration
+  | activate (gen2 : Bool) (keys : List (Nat × Nat))      -- start decisions of one begin-block (x/auction resp. liquidationsV2)
   deriving Repr
 
 /-- how one iteration of `LockerIterateRewards` ends: `stop` = `return` (reward-calculation error), `next paid` = the loop goes
@@ -276,13 +362,17 @@ def lsrLoop (s : State) (app asset : Nat) : List Nat → List Rw → Option Stat
 def step (s : State) : Op → Option State
   | .fund u asset x => (s.bank.mint (.user u) asset x).map fun b => { s with bank := b }
   | .whitelist app asset =>
-    if app ∉ s.apps then none
+    if app ∈ s.esmOn then none                               -- ErrESMAlreadyExecuted
+    else if app ∈ s.killOn then none                         -- ErrCircuitBreakerEnabled
+    else if app ∉ s.apps then none
     else if asset ∉ s.assets then none
     else match Store.get s.lookup (app, asset) with
       | some _ => none
       | none => some { s with lookup := Store.put s.lookup (app, asset) { deposited := 0, ids := [] } }
   | .create u app asset amt =>
     if amt ≤ 0 then none                                     -- ValidateBasic
+    else if app ∈ s.esmOn then none                          -- ErrESMAlreadyExecuted (first guard of the handler)
+    else if app ∈ s.killOn then none                         -- ErrCircuitBreakerEnabled
     else if asset ∉ s.assets then none
     else if app ∉ s.apps then none
     else if userHasLocker s u app asset then none
@@ -300,6 +390,8 @@ def step (s : State) : Op → Option State
                         lookup := Store.put s.lookup (app, asset) { deposited := lk.deposited + amt, ids := lk.ids ++ [id] } }
   | .deposit u app asset id amt rw =>
     if amt ≤ 0 ∨ id = 0 then none                            -- ValidateBasic
+    else if app ∈ s.esmOn then none                          -- ErrESMAlreadyExecuted (first guard of the handler)
+    else if app ∈ s.killOn then none                         -- ErrCircuitBreakerEnabled
     else match lockerGuards s u app asset id with
       | none => none
       | some _ =>
@@ -386,25 +478,27 @@ def step (s : State) : Op → Option State
     | some b1 =>
       match Bank.send b1 .auctionV2 (.user u) asset lot with
       | none => none
-      | some b2 => setNetFee { s with bank := b2 } (app, asset) lot
+      | some b2 => (setNetFee { s with bank := b2 } (app, asset) lot).bind fun s1 => clearActive s1 (app, asset)
   | .v2DebtClose app asset c d =>
     -- auctions.go:419-427: `DebtToken` (d, collector asset) arrives, `CollateralToken.Amount` (c, other asset) is recorded
-    (creditCollector s asset d).bind fun s1 => setNetFee s1 (app, asset) c
+    ((creditCollector s asset d).bind fun s1 => setNetFee s1 (app, asset) c).bind fun s2 => clearActive s2 (app, asset)
+  | .config c => some (applyCfg s c)
+  | .activate gen2 keys => some (activate s gen2 keys)
 
 /-- The two closes as they would read after the small repair proposed in notes/C13.md (surplus: hand out the lot that
 `GetAmountFromCollector` already moved to the first-generation auction account and leave the record alone; debt: record what
 arrives). The driver accepts this behaviour as well, so that a repaired tree checks clean; the theorems about it are
 `C13.repaired_surplus_close_exact` and `C13.repaired_debt_close_exact`. Every other op is `step`. -/
 def stepRepaired (s : State) : Op → Option State
-  | .v2SurplusClose _ asset u lot =>
+  | .v2SurplusClose app asset u lot =>
     match s.bank.send .auction .auctionV2 asset lot with
     | none => none
     | some b1 =>
       match Bank.send b1 .auctionV2 (.user u) asset lot with
       | none => none
-      | some b2 => some { s with bank := b2 }
+      | some b2 => clearActive { s with bank := b2 } (app, asset)
   | .v2DebtClose app asset _ d =>
-    (creditCollector s asset d).bind fun s1 => setNetFee s1 (app, asset) d
+    ((creditCollector s asset d).bind fun s1 => setNetFee s1 (app, asset) d).bind fun s2 => clearActive s2 (app, asset)
   | op => step s op
 
 def run (s : State) : List Op → Option State
